@@ -1765,7 +1765,8 @@ def flattened_product(terms):
             continue
 
         if isinstance(item, Product):
-            queue += item.children
+            # splice in place: the order of factors must be preserved
+            queue[:0] = item.children
         else:
             done.append(item)
 
